@@ -31,7 +31,7 @@ SYMS = ["C1", "C2", "D3", "C4", "D6", "T", "O", "Oh", "D6h", "Ci"]
 PHASES = ["none", "cubic", "hex", "tric"]
 FORMATS = ["xyz", "uvw", "UVTW", "hkl", "hkil"]
 NTAB = 512
-UNIT_TOL = 4e-15  # relative, only for elements that went through a division (unit, ~Quaternion)
+UNIT_TOL = 2e-14  # relative, only for elements that went through a division (unit, ~Quaternion)
 
 
 def _imp():
@@ -569,11 +569,8 @@ def op_token(op):
 
 def prog_model_lines(c):
     prog = ";".join(op_token(op) for op in c["prog"]) or "-"
-    args = (f"{CLS_TAG[c['cls']]} {','.join(map(str, c['shape']))} {bits(c['flags'])} "
-            f"{','.join(map(str, meta_tokens(c['cls'], c['meta'])))} {prog}")
-    # nd: model of the code as it is; nds: the corrected operations (Obj.stepSpec).  orix must agree with one of
-    # them: a future repair of a known finding keeps this site green (the prop site then stops reproducing it)
-    return ["nd " + args, "nds " + args]
+    return [f"nd {CLS_TAG[c['cls']]} {','.join(map(str, c['shape']))} {bits(c['flags'])} "
+            f"{','.join(map(str, meta_tokens(c['cls'], c['meta'])))} {prog}"]
 
 
 def sym_value(cls, s):
@@ -620,14 +617,7 @@ def run_impl_only(case):
 
 def prog_model_check(ctx, c, outs):
     obj, ek, has_stack = run_impl_only(c)
-    r = compare_model(c, outs[0], obj, ek, has_stack)
-    if r is not None and len(outs) > 1 and outs[1] != outs[0]:
-        r2 = compare_model(c, outs[1], obj, ek, has_stack)
-        if r2 is None:
-            ctx.note("orix agrees with the corrected model (Obj.stepSpec) where the code-shaped model differs: "
-                     "a known finding seems repaired")
-            return None
-    return r
+    return compare_model(c, outs[0], obj, ek, has_stack)
 
 
 def compare_model(c, out, obj, ek, has_stack):
@@ -785,26 +775,7 @@ def thresh_data(rng, n, dim):
     return rows
 
 
-# ---------------- known findings ---------------------------------------------------------
-def _first_failure(case):
-    try:
-        r, _, _, _ = run_prog_impl(case)
-    except Exception:
-        return ""
-    return r or ""
-
-
-def pred_miller_neg(case):
-    r = _first_failure(case)
-    return case.get("cls") == "Miller" and " neg: metadata " in r and "'phase': 'none', 'fmt': 'xyz'" in r
-
-
-def pred_miller_squeeze(case):
-    r = _first_failure(case)
-    return case.get("cls") == "Miller" and " squeeze: orix raised DimensionError" in r
-
-
-PREDICATES = {"miller_neg_drops_metadata": pred_miller_neg, "miller_squeeze_raises": pred_miller_squeeze}
+PREDICATES = {}  # no open finding for C16 (Miller negation / squeeze were repaired in /repo by 23f0eb7)
 
 SITES = {
     "prog_model": sites.Site("prog_model", "corr", prog_model_check, prog_model_lines),
